@@ -1,0 +1,31 @@
+//go:build verif
+
+package storagesc
+
+// VerifMsgpNew lists constructors of the unexported types of this package that have msgp
+// generated code, for the serialization check (C08). No logic.
+var VerifMsgpNew = map[string]func() interface{}{
+	"allocationChallengesDecoder": func() interface{} { return new(allocationChallengesDecoder) },
+	"blockReward": func() interface{} { return new(blockReward) },
+	"blockRewardGamma": func() interface{} { return new(blockRewardGamma) },
+	"blockRewardZeta": func() interface{} { return new(blockRewardZeta) },
+	"challengePool": func() interface{} { return new(challengePool) },
+	"freeAllocationSettings": func() interface{} { return new(freeAllocationSettings) },
+	"freeStorageAssigner": func() interface{} { return new(freeStorageAssigner) },
+	"freeStorageMarker": func() interface{} { return new(freeStorageMarker) },
+	"freeStorageUpgradeInput": func() interface{} { return new(freeStorageUpgradeInput) },
+	"fundedPools": func() interface{} { return new(fundedPools) },
+	"readPool": func() interface{} { return new(readPool) },
+	"readPoolConfig": func() interface{} { return new(readPoolConfig) },
+	"readPoolLockRequest": func() interface{} { return new(readPoolLockRequest) },
+	"stakePool": func() interface{} { return new(stakePool) },
+	"stakePoolConfig": func() interface{} { return new(stakePoolConfig) },
+	"storageAllocationV1": func() interface{} { return new(storageAllocationV1) },
+	"storageAllocationV2": func() interface{} { return new(storageAllocationV2) },
+	"storageNodeV1": func() interface{} { return new(storageNodeV1) },
+	"storageNodeV2": func() interface{} { return new(storageNodeV2) },
+	"storageNodeV3": func() interface{} { return new(storageNodeV3) },
+	"writeMarkerV1": func() interface{} { return new(writeMarkerV1) },
+	"writeMarkerV2": func() interface{} { return new(writeMarkerV2) },
+	"writePoolConfig": func() interface{} { return new(writePoolConfig) },
+}
